@@ -51,6 +51,12 @@ def dispatch(args):
             worldA.ensure_runtime(flavor)
         print('setup ok')
         return engine.EXIT_OK
+    if what == 'selftest-determinism':
+        from . import selftest
+        return selftest.determinism()
+    if what == 'selftest-mutants':
+        from . import mutants
+        return mutants.run_catalogue()
     if args.replay:
         return replay(what, args.replay)
     tier, seed = engine.tier_and_seed(args)
@@ -139,6 +145,10 @@ def replay(prop, path):
         prof = profiles.PROFILES[rp['profile']]
         try:
             mb, _ = checkA.build_model(rp['spec'], rp['cfgspec'], rp['json_ast'].encode('utf-8'), rp['flavor'], False)
+        except worldA.GenerationFailure as gf:
+            print(f'VIOLATION property={prop} replay={path}')
+            print(f'  class=generation-failure detail={gf}')
+            return engine.EXIT_VIOLATION
         except worldA.CompileFailure as cf:
             if cf.where == 'generated':
                 print(f'VIOLATION property={prop} replay={path}')
